@@ -123,8 +123,42 @@ fn estimate(c: &Cand) -> usize {
 }
 
 /// Stored size of the candidate on an empty, very large segment.
+const MEASURED_ENV: &str = "VERIF_C19_MEASURED";
+
+/// Stored sizes are measured once, by the parent process, and handed to the workers through the environment: every
+/// measurement opens a database whose preallocated segment stays alive in the scratch file system until the process
+/// ends (the reader pool's threads keep the descriptors), and 16 workers each measuring every candidate exhausted the
+/// machine's memory.
+static MEASURED: std::sync::OnceLock<std::sync::Mutex<std::collections::HashMap<String, usize>>> = std::sync::OnceLock::new();
+
+fn measured_cache() -> &'static std::sync::Mutex<std::collections::HashMap<String, usize>> {
+    MEASURED.get_or_init(|| std::sync::Mutex::new(std::env::var(MEASURED_ENV).ok().and_then(|s| serde_json::from_str(&s).ok()).unwrap_or_default()))
+}
+
+fn measured(compression: bool, c: &Cand) -> Result<usize, String> {
+    let cache = measured_cache();
+    let key = format!("{compression}/{}", serde_json::to_string(c).unwrap());
+    if let Some(v) = cache.lock().unwrap().get(&key) {
+        return Ok(*v);
+    }
+    let v = measure(compression, c)?;
+    cache.lock().unwrap().insert(key, v);
+    Ok(v)
+}
+
+/// Called by the parent after it enumerated the cases (and thereby measured every candidate).
+fn export_measurements() {
+    if std::env::var(MEASURED_ENV).is_err() {
+        let json = serde_json::to_string(&*measured_cache().lock().unwrap()).unwrap();
+        // SAFETY: no other thread of this process is running yet
+        unsafe { std::env::set_var(MEASURED_ENV, json) };
+    }
+}
+
 fn measure(compression: bool, c: &Cand) -> Result<usize, String> {
-    let cfg = DbCfg::simple(4 * 1024 * 1024, compression, SyncMode::EveryWrite);
+    // a segment just large enough for the candidate (a large one costs scratch memory, see above)
+    let seg = (estimate(c) + 64 * 1024).next_power_of_two().max(128 * 1024);
+    let cfg = DbCfg::simple(seg, compression, SyncMode::EveryWrite);
     let h = H::new(cfg, "c19m")?;
     match h.raw_append(cand_tx(c, 1)) {
         AppendOutcome::Accepted(r) => {
@@ -178,7 +212,7 @@ pub fn cases(tier: Tier) -> Vec<Case> {
         for compression in [true, false] {
             for cand in candidates(seg, thorough) {
                 let est = estimate(&cand);
-                let stored = match measure(compression, &cand) {
+                let stored = match measured(compression, &cand) {
                     Ok(s) => s,
                     Err(e) => vcommon::machinery_fail(&format!("cannot measure stored size of {cand:?}: {e}")),
                 };
@@ -329,7 +363,9 @@ pub fn run_case(case: &Case, out: &mut WorkerOut) {
 pub fn run(args: Args) {
     let tier = args.tier;
     // measuring stored sizes needs real databases; workers re-derive the same list
-    let plan = Plan { property: "C19", level: "model_checking", cases: cases(tier), cap: if tier.is_thorough() { Duration::from_secs(1500) } else { Duration::from_secs(50) } };
+    let all = cases(tier);
+    export_measurements();
+    let plan = Plan { property: "C19", level: "model_checking", cases: all, cap: if tier.is_thorough() { Duration::from_secs(1500) } else { Duration::from_secs(50) } };
     drive(args, plan, run_case, |m, total| {
         (
             json!({
